@@ -94,14 +94,22 @@ def run(ctx):
                       'no statement after the update can raise', 3)
     so = repo.funcs('fst_options', 'set_options')[0]
     cfg = CFG(so.node)
-    upd = [n for n in cfg.nodes if any(isinstance(x, ast.Call) and call_name(x) == 'update' and norm(x.func.value) in ('_options', '_OPTIONS.__dict__')
+    # names of the thread-local store inside the function: `_OPTIONS.__dict__` and locals bound to it
+    store_names = {'_OPTIONS.__dict__', 'vars(_OPTIONS)'}
+    for n in walk_no_nested(so.node):
+        if isinstance(n, ast.Assign) and isinstance(n.targets[0], ast.Name) and norm(n.value) in store_names:
+            store_names.add(n.targets[0].id)
+    opt_param = so.node.args.kwarg.arg if so.node.args.kwarg else 'options'
+    upd = [n for n in cfg.nodes if any(isinstance(x, ast.Call) and call_name(x) == 'update' and norm(x.func.value) in store_names
                                        for x in subnodes(cfg, n))]
     chk = [n for n in cfg.nodes if any(isinstance(x, ast.Call) and call_name(x) == 'check_options' and len(x.args) >= 2 and
-                                       norm(x.args[0]) == 'options' and norm(x.args[1]) == 'False' for x in subnodes(cfg, n))]
-    old = [n for n in cfg.nodes if n.kind == 'stmt' and isinstance(n.ast, ast.Assign) and norm(n.ast.targets[0]) == 'old_options']
+                                       norm(x.args[0]) == opt_param and norm(x.args[1]) == 'False' for x in subnodes(cfg, n))]
+    # the snapshot: the local that is returned, bound to a comprehension over the requested options reading the store
+    ret_names = {norm(n.value) for n in walk_no_nested(so.node) if isinstance(n, ast.Return) and isinstance(n.value, ast.Name)}
+    old = [n for n in cfg.nodes if n.kind == 'stmt' and isinstance(n.ast, ast.Assign) and norm(n.ast.targets[0]) in ret_names]
     # any other write into the thread-local store inside set_options (e.g. per-item assignment in a loop) is an update too
     other_writes = [n for n in cfg.nodes if n.kind == 'stmt' and isinstance(n.ast, (ast.Assign, ast.AugAssign)) and any(
-        isinstance(t, ast.Subscript) and norm(t.value) in ('_options', '_OPTIONS.__dict__')
+        isinstance(t, ast.Subscript) and norm(t.value) in store_names
         for t in (n.ast.targets if isinstance(n.ast, ast.Assign) else [n.ast.target]))]
     all_upd = upd + other_writes
     ctx.check('R20.3', len(upd) == 1 and not other_writes and len(chk) >= 1 and len(old) == 1, 'fst_options', 'set_options',
@@ -125,7 +133,8 @@ def run(ctx):
                       f'error but the options stay changed', u.lineno)
         # the old-value lookup must cover every key of `options` (comprehension over options) and turn KeyError into ValueError
         o = old[0].ast.value
-        ok = isinstance(o, ast.DictComp) and norm(o.generators[0].iter) == 'options' and '_options[o]' in norm(o.value)
+        ok = isinstance(o, ast.DictComp) and norm(o.generators[0].iter) == opt_param and \
+            any(isinstance(x, ast.Subscript) and norm(x.value) in store_names for x in ast.walk(o.value))
         ctx.check('R20.3', ok, 'fst_options', 'set_options', norm(old[0].ast, 100),
                   'the snapshot of old values must look up every key of `options` in the store (unknown names are rejected here)', old[0].lineno)
 
